@@ -156,15 +156,17 @@ def menu(basename):
 def reduced_menu(basename):
     """sub-menu for the k=2 product of the quick tier: one specimen per mechanism"""
     if basename in COST_BASES:
-        return menu(basename)
+        return [d for d in menu(basename) if d not in (["csgen", 1, 0.2, 0.], ["sn", 100.], ["sgen", na.HOT[COST_BASES[basename]][0], 0.8, -0.2, 1., True])]
     b0 = na.HOT[basename][0]
-    drop_struct = {"R3": [["set", "line", 0, "parallel", 3], ["line", 0, 2, 2, True], ["set", "line", 0, "length_km", 0.4], ["bus", 1, False],
+    drop_struct = {"R3": [["trafo", 1, 2, dict(SHIFTER20, tap_pos=1)], ["trafo", 1, 2, dict(SHIFTER20, shift_degree=0.)],
+                          ["set", "line", 0, "parallel", 3], ["line", 0, 2, 2, True], ["set", "line", 0, "length_km", 0.4], ["bus", 1, False],
                           ["switch", 1, 0, "l", True, 0.]],
                    "T3": [["set", "trafo", 0, "tap_neutral", 1], ["set", "trafo", 0, "vkr_percent", 0.], ["line", 1, 2, 1, True],
                           ["set", "trafo", 0, "tap_step_percent", 0.], ["set", "trafo", 0, "tap_pos", 9],
                           ["set", "trafo", 0, "shift_degree", 30.], ["set", "trafo", 0, "vn_hv_kv", 115.],
                           ["trafo", 0, 1, {"in_service": False}], ["set", "line", 0, "parallel", 2], ["set", "trafo", 0, "i0_percent", 0.],
                           ["set", "switch", 0, "z_ohm", 0.5]],
+                   "M4": [["trafo", 1, 3, dict(SHIFTER110, shift_degree=-5., tap_pos=-2)], ["set", "line", 0, "in_service", False]],
                    "W3": [["set", "trafo3w", 0, "vkr_mv_percent", 2.], ["set", "trafo3w", 0, "pfe_kw", 0.], ["set", "trafo3w", 0, "tap_neutral", 1],
                           ["set", "trafo3w", 0, "tap_step_degree", 10.], ["set", "bus", 2, "in_service", False],
                           ["set", "line", 0, "in_service", False], ["switch", 2, 0, "t3", False, 0.], ["set", "ext_grid", 0, "va_degree", 5.],
